@@ -692,6 +692,8 @@ pub fn run(ctx: &mut Ctx) {
             1 => 64 * rng.below(300) + rng.below(3),
             _ => rng.below(5000),
         };
+        // the tiny tier runs under Miri (~4 orders of magnitude slower): keep windows small
+        let (off, len) = if ctx.tier == Tier::Tiny { (off % 200, len % 700) } else { (off, len) };
         let content = *rng.pick(&CONTENTS);
         let tail = rng.below(100);
         let bits = make_bits(&mut rng, off + len + tail, off, len, content);
